@@ -432,10 +432,11 @@ def make_strategy(script: dict):
                     dec = self.s.get('qty_dec', 3)
                     qa = max(round(self._qty() * 0.5, dec), 10 ** -dec) if hasattr(self, '_qty') else 10 ** -dec
                     px = float(self.price)
+                    dist = self.s.get('on_close_broker_dist', 0.004)
                     if self.rnd('ocb') < 0.5:
-                        self.broker.buy_at(qa, self._px(px * (1 - 0.004)))
+                        self.broker.buy_at(qa, self._px(px * (1 - dist)))
                     else:
-                        self.broker.sell_at(qa, self._px(px * (1 + 0.004)))
+                        self.broker.sell_at(qa, self._px(px * (1 + dist)))
                 self._observe('on_close_position', o=TR.oid(order))
                 self._maybe_raise('on_close_position')
             finally:
@@ -545,6 +546,11 @@ def make_strategy(script: dict):
                         half = self._split(q, 2)[0]
                         self.stop_loss = [(q, price)]
                         self.take_profit = [(half, price)]
+                    elif kind == 'withdraw_tp':
+                        # the target ladder is withdrawn altogether (re-declared as empty): no take-profit order may survive
+                        self.take_profit = []
+                    elif kind == 'withdraw_sl':
+                        self.stop_loss = []
                     elif kind == 'near_tp':
                         # an exit within / around the 0.015 % market band
                         off = [0.0, 0.0001, 0.00015, 0.0002, 0.0003][int(self.rnd('near') * 5)]
